@@ -407,7 +407,7 @@ struct Init {
         {   // C12 burst-buffer driver is transparent to the application
             Profile p; p.id = "C12"; p.level = "exploration";
             p.technique = "deterministic simulation with fault injection: generated programs run through the real burst-buffer driver (log files in the simulated POSIX file system, short reads/writes injected) and again through the default driver; reference-model oracles at every read, record-count inquiry and raw-image checkpoint, cross-driver comparison of the destination file, log-file census after close";
-            p.rule = "one seed = one program inside the documented fragment (no element written twice between flushes, no vard, no cancel, no fill_var_rec) of blocking and nonblocking writes (var/var1/vara/vars/varm/varn, flexible buffers, all memory types) and reads on fixed and record variables by 1..4 ranks in collective and independent mode with redefinitions, executed with nc_burst_buf=enable, flush-buffer size in {1 B (one entry per round), 8, 64, 512, 4096, unlimited}, shared (per node) or per-process logs with block size knob 32..256 B, log directory hint, initial table sizes 1..4 (growth paths); half of the seeds inject 1..3 short POSIX reads/writes into log I/O; oracles: every rank reads back its own earlier writes (flush on read), after wait / flush / sync / redef / close + barrier the raw file holds every earlier write of every rank and the agreed record count (checkpoint decode), record count reported by each rank within [agreed, agreed + staged], the same program through the default driver leaves a logically equal file, after close no *.meta / *.data log file exists (all exist when nc_burst_buf_del_on_close=disable); non-trivial = run completed, >= 1 write was staged and flushed";
+            p.rule = "one seed = one program inside the documented fragment (no element written twice between flushes, no vard, no fill_var_rec, cancel only of puts that are certainly still in the log) of blocking and nonblocking writes (var/var1/vara/vars/varm/varn, flexible buffers, all memory types) and reads on fixed and record variables by 1..4 ranks in collective and independent mode with redefinitions, executed with nc_burst_buf=enable, flush-buffer size in {1 B (one entry per round), 8, 64, 512, 4096, unlimited}, shared (per node) or per-process logs with block size knob 32..256 B, log directory hint, initial table sizes 1..4 (growth paths); half of the seeds inject 1..3 short POSIX reads/writes into log I/O; oracles: every rank reads back its own earlier writes (flush on read), after wait / flush / sync / redef / close + barrier the raw file holds every earlier write of every rank and the agreed record count (checkpoint decode), record count reported by each rank within [agreed, agreed + staged], the same program through the default driver leaves a logically equal file, after close no *.meta / *.data log file exists (all exist when nc_burst_buf_del_on_close=disable); non-trivial = run completed, >= 1 write was staged and flushed";
             p.fault_kinds = {"posix-short-io"};
             p.gen = [](uint64_t seed, bool th) {
                 GenParams g; g.bb = true; g.max_np = 4; g.max_data_ops = th ? 24 : 14; g.nonblocking = true; g.redef = (seed % 3 != 0); g.fill = false; g.all_forms = (seed % 2 == 0); g.hints = false; g.knobs = false; g.big = (seed % 5 == 0); g.atts = (seed % 4 == 0); g.checkpoint_each = (seed % 3 == 0);
@@ -460,7 +460,7 @@ struct Init {
                 return rb;
             };
             p.nontrivial = [](const Program &q, const RunResult &r) { return r.completed && r.st.bytes_written > 0 && r.st.posix > 0; };
-            p.assumptions = {"programs stay inside the documented limitations of the driver (README.burst_buffering.md, known issues 2 and 3) and use only calls whose behaviour the property states; request counts, attached-buffer accounting and cancellation are not compared", "return codes of range errors are not exercised (the driver reports them at flush time, known issue 1)", "short reads/writes are injected, EINTR is not (the driver reports it as an error, which the property does not forbid)"};
+            p.assumptions = {"programs stay inside the documented limitations of the driver (README.burst_buffering.md, known issues 2 and 3) and use only calls whose behaviour the property states; request counts and attached-buffer accounting are not compared; a cancel that may hit an already flushed entry (documented NC_EFLUSHED) is outside the fragment", "return codes of range errors are not exercised (the driver reports them at flush time, known issue 1)", "short reads/writes are injected, EINTR is not (the driver reports it as an error, which the property does not forbid)"};
             p.quick_s = 40; p.thorough_s = 600;
             reg(p);
         }
